@@ -117,6 +117,10 @@ pub fn string_pairs(r: &mut StdRng, n_random: usize) -> Vec<(String, String)> {
         ("\0".into(), "\0\0".into()),
         ("a.b".into(), "a.c".into()),               // '.' inside a footer
         ("x".repeat(1024), "x".repeat(1023) + "y"), // 1 KiB
+        ("tenant-42".into(), "tenant-42\n".into()),   // trailing line ending
+        ("a ".into(), "a".into()),                    // trailing blank
+        ("\tx".into(), "x".into()),                   // leading tab
+        ("x\u{a0}".into(), "x".into()),               // trailing no-break space
         ("y".repeat(255), "y".repeat(256)),         // one-byte length boundary
         ("z".repeat(65535), "z".repeat(65536)),     // two-byte length boundary
     ];
